@@ -2,6 +2,7 @@ package main
 
 import (
 	"fmt"
+	"go/constant"
 	"go/token"
 	"go/types"
 	"os"
@@ -29,7 +30,9 @@ type Engine struct {
 	loadTime       time.Duration
 	verifiedKeys   map[string]bool
 	repo           string
-	globalNonNil   map[*ssa.Global]int // 0 unknown, 1 yes, 2 no
+	globalNonNil   map[*ssa.Global]int        // 0 unknown, 1 yes, 2 no
+	globalInitType map[*ssa.Global]types.Type // dynamic type of the value stored by the initialiser, when known
+	globalInitLen  map[*ssa.Global]int        // length of a slice variable initialised from a constant string
 }
 
 const modPath = "mosn.io/mosn"
@@ -466,6 +469,8 @@ func (e *Engine) lvalueKinds(vc *VC, fn *ssa.Function, a SExpr, names map[string
 func (e *Engine) initNonNil(g *ssa.Global) bool {
 	if e.globalNonNil == nil {
 		e.globalNonNil = map[*ssa.Global]int{}
+		e.globalInitType = map[*ssa.Global]types.Type{}
+		e.globalInitLen = map[*ssa.Global]int{}
 	}
 	if v := e.globalNonNil[g]; v != 0 {
 		return v == 1
@@ -498,13 +503,30 @@ func (e *Engine) initNonNil(g *ssa.Global) bool {
 				case *ssa.Call:
 					if f := v.Call.StaticCallee(); f != nil && (f.String() == "errors.New" || f.String() == "fmt.Errorf") {
 						nonNilInit = true
+						if f.String() == "errors.New" {
+							if ep := e.prog.ImportedPackage("errors"); ep != nil {
+								if tn, ok := ep.Members["errorString"].(*ssa.Type); ok {
+									e.globalInitType[g] = types.NewPointer(tn.Type())
+								}
+							}
+						}
 						continue
 					}
 					return false
 				case *ssa.MakeInterface:
 					nonNilInit = true
+					e.globalInitType[g] = v.X.Type()
 				case *ssa.Alloc:
 					nonNilInit = true
+				case *ssa.Convert:
+					// []byte("constant"): a slice of known length
+					c, isC := v.X.(*ssa.Const)
+					_, isSl := v.Type().Underlying().(*types.Slice)
+					if !isC || !isSl || c.Value == nil || c.Value.Kind() != constant.String {
+						return false
+					}
+					nonNilInit = true
+					e.globalInitLen[g] = len(constant.StringVal(c.Value))
 				default:
 					return false
 				}
@@ -1111,4 +1133,41 @@ func writeOnceCell(a *ssa.Alloc, depth int) bool {
 		}
 	}
 	return true
+}
+
+// constGlobal returns the one value a write-once package variable (see initNonNil) holds after package
+// initialisation: every load in this VC yields the same term, whatever was havocked in between.
+func (vc *VC) constGlobal(g *ssa.Global) (Term, bool) {
+	if !vc.eng.initNonNil(g) {
+		return Term{}, false
+	}
+	if vc.constGlobals == nil {
+		vc.constGlobals = map[*ssa.Global]Term{}
+	}
+	if t, ok := vc.constGlobals[g]; ok {
+		return t, true
+	}
+	et := g.Type().Underlying().(*types.Pointer).Elem()
+	t := vc.q.Declare("cg$"+sanitize(g.Pkg.Pkg.Path()+"."+g.Name()), vc.sortOf(et))
+	st := &State{reach: True, mem: map[string]Term{}, alloc: IntLit(1)}
+	if vc.top != nil && vc.top.entry != nil {
+		st = vc.top.entry
+	}
+	vc.q.Assert(vc.wfAssume(st, t, et, 0))
+	switch t.Sort {
+	case SIface:
+		vc.q.Assert(Not(Eq(ITyp(t), IntLit(0))))
+		if dt := vc.eng.globalInitType[g]; dt != nil {
+			vc.q.Assert(Eq(ITyp(t), IntLit(int64(vc.eng.typeID(dt)))))
+		}
+	case SPtr:
+		vc.q.Assert(Not(Eq(t, NilP)))
+	case SSlice:
+		if n, ok := vc.eng.globalInitLen[g]; ok {
+			vc.q.Assert(Eq(SLen(t), IntLit(int64(n))))
+		}
+	}
+	vc.constGlobals[g] = t
+	vc.assumed["package variable "+g.Pkg.Pkg.Path()+"."+g.Name()+" is set once by package initialisation and keeps that value (checked syntactically: no other store in its package)"] = true
+	return t, true
 }
